@@ -94,8 +94,8 @@ theorem sum_filter_pos (g : Nat → Int) (l : List Nat) (h : ∀ i ∈ l, 0 ≤ 
     have ih' := ih (fun k hk => h k (List.mem_cons_of_mem _ hk))
     have hi := h i (List.mem_cons_self ..)
     by_cases hc : 0 < g i
-    · simp [List.filter_cons, hc, ih']
-    · simp [List.filter_cons, hc, ih']; omega
+    · simp [hc, ih']
+    · simp [hc, ih']; omega
 
 theorem map_getD_range (l : List Int) : (List.range l.length).map (fun i => l.getD i 0) = l := by
   apply List.ext_getElem
@@ -225,18 +225,42 @@ theorem sortedSolver_sinks (pb : Problem) (hv : checkOk pb = true) :
     rw [(sortedSolver_wf pb).hd] at h5
     exact h5
 
-theorem assign_safe (fuel : Nat) (pb : Problem) (hv : checkOk pb = true) :
-    Safe (fun a => a.length = pb.u.length ∧
-      ((∃ j, j < pb.v.length ∧ 0 < pb.d.getD j 0) → ∀ k ∈ a, k < pb.v.length ∧ 0 < pb.d.getD k 0))
-      (assign fuel pb) := by
+theorem sortedSolver_slack (pb : Problem) (hv : checkOk pb = true) :
+    0 ≤ (sortedSolver pb).D.getD (sortedSolver pb).v.length 0
+      - (sortedSolver pb).S.getD (sortedSolver pb).u.length 0 := by
+  obtain ⟨hs, hd, hsn, hdn, hle⟩ := (checkOk_iff pb).mp hv
+  have wf := sortedSolver_wf pb
+  have h2 : (sortedSolver pb).s.sum = pb.s.sum := sum_ord pb.u pb.s hs hsn
+  have h3 : (sortedSolver pb).d.sum = pb.d.sum := sum_ord pb.v pb.d hd hdn
+  have eD : (sortedSolver pb).D = prefixFrom 0 (sortedSolver pb).d := rfl
+  have eS : (sortedSolver pb).S = prefixFrom 0 (sortedSolver pb).s := rfl
+  rw [← wf.hd, ← wf.hs, eD, eS, prefixFrom_last, prefixFrom_last]
+  omega
+
+theorem sortedSolver_dom (pb : Problem) (hv : checkOk pb = true) : (sortedSolver pb).Dom := by
+  have wf := sortedSolver_wf pb
+  have eD : (sortedSolver pb).D = prefixFrom 0 (sortedSolver pb).d := rfl
+  have eS : (sortedSolver pb).S = prefixFrom 0 (sortedSolver pb).s := rfl
+  refine ⟨wf, ?_, ?_, ?_, ?_⟩
+  · intro a b hab hb
+    rw [eD]; exact prefixFrom_mono 0 _ (sortedSolver_dpos pb) a b hab (by rw [wf.hd]; exact hb)
+  · intro a b hab hb
+    rw [eS]; exact prefixFrom_mono 0 _ (sortedSolver_spos pb) a b hab (by rw [wf.hs]; exact hb)
+  · have := sortedSolver_slack pb hv; omega
+  · rw [eD, eS, prefixFrom_zero, prefixFrom_zero]; exact Int.le_refl _
+
+/-- `assign` never fails (no out-of-range access, no `outOfFuel`) on the domain -/
+theorem assign_total (pb : Problem) (hv : checkOk pb = true) :
+    ∃ a, assign pb = .ok a ∧ a.length = pb.u.length ∧
+      ((∃ j, j < pb.v.length ∧ 0 < pb.d.getD j 0) → ∀ k ∈ a, k < pb.v.length ∧ 0 < pb.d.getD k 0) := by
   obtain ⟨hs, hd, hsn, hdn, hle⟩ := (checkOk_iff pb).mp hv
   unfold assign
   simp only [check, hv, if_true, mkSorter_ok pb hs hd, convert_ok pb hs hd, bind, Except.bind,
     pure, Except.pure]
   have hm := sortedSolver_sinks pb hv
   have wf := sortedSolver_wf pb
-  refine Safe.bind (run_safe (sortedSolver pb) wf fuel hm) ?_
-  intro p hp
+  obtain ⟨p, erun, hp⟩ := run_ok (sortedSolver pb) (sortedSolver_dom pb hv) hm
+  simp only [erun]
   obtain ⟨a, e, l1, l2⟩ := computeAssignment_ok (sortedSolver pb) wf (sortedSolver_spos pb) rfl p hp hm
   simp only [e]
   have hsrcLen : (ord pb.u pb.s).length = (sortedSolver pb).u.length := by simp [sortedSolver, mkSolver]
@@ -247,7 +271,7 @@ theorem assign_safe (fuel : Nat) (pb : Problem) (hv : checkOk pb = true) :
     (fun k hk => ((mem_ord _ _ k).mp hk).1) (by simp [Problem.nbSources])
   unfold convertAssignmentBack
   simp only [e2]
-  refine Safe.ok ⟨k1, ?_⟩
+  refine ⟨r, rfl, k1, ?_⟩
   rintro ⟨j, hj1, hj2⟩ k hk
   have hjm : j ∈ ord pb.v pb.d := (mem_ord _ _ j).mpr ⟨hj1, hj2⟩
   have hmem : k ∈ ord pb.v pb.d := by
